@@ -183,6 +183,14 @@ func vAnd(a, b value) value {
 // under Go's equivalence relation for type t. Comparing uncomparable dynamic
 // types panics like Go does.
 func eqv(t types.Type, x, y value) value {
+	// a cell beyond the length of a slice that was never stored to holds no
+	// value yet: it is the zero value of its type
+	if x == nil && t != nil {
+		x = zero(t)
+	}
+	if y == nil && t != nil {
+		y = zero(t)
+	}
 	if isSym(x) || isSym(y) {
 		if isStr(x) || isStr(y) {
 			return symBinopTok(token.EQL, x, y)
